@@ -1,5 +1,5 @@
 use crate::linalg::Vector;
-use crate::linalg::{dot, norm, vmul, vsub};
+use crate::linalg::{dot, vmul, vsub};
 
 /// An enum to represent the [exponential
 /// family](https://en.wikipedia.org/wiki/Exponential_family) set of distributions. These are
@@ -140,6 +140,6 @@ impl ExponentialFamily {
     }
 
     pub fn penalized_deviance(&self, y: &[f64], mu: &[f64], alpha: f64, coef: &[f64]) -> f64 {
-        self.deviance(y, mu) + alpha * norm(&coef[1..])
+        self.deviance(y, mu) + alpha * dot(&coef[1..], &coef[1..])
     }
 }
